@@ -23,5 +23,7 @@ MCConfigs == {
     <<It("wq_da_c3", WQ, DA), It("rq_db_c4", RQ, DB), It("wq_da_c3", WQ, DA)>> }
 MCConfigsSmall == {
     <<It("fq_da_c1", FQ, DA), It("fq_da_c1", FQ, DA)>>,
+    <<It("dq_da_c2", DQ, DA), It("dq_da_c2", DQ, DA)>>,                              \* a compiled descendant query, reused
+    <<It("dq_db_c5", DQ, DB), It("rq_db_c4", RQ, DB)>>,
     <<It("rq_db_e1", RQ, DB), It("nq_da_e2", NQ, DA), It("dq_db_m", DQ, DB)>> }
 =============================================================================
